@@ -82,6 +82,109 @@ theorem runM_child (p : Node) (i : Nat) (s : St) :
   | none => rfl
   | some o => cases o <;> rfl
 
+/-- the parameter step preserves every invariant `I` of the frame under construction that implies "the frame has
+    no parent", survives writes of the allowed names `W` into the frame, and survives default evaluation -/
+theorem bindParamNode_gen (ev : Node → M Val) (n : Nat) (I : St → Prop) (W : String → Prop)
+    (hpar : ∀ s, I s → (s.scope n).parent = none)
+    (hwv : ∀ s v x, I s → W v → I (s.withVar n v x))
+    (hdef : ∀ d s r s1, I s → runM (ev d) s = (r, s1) → I s1)
+    (p : Node) (i : Nat) (args : List Val) (s s' : St) (r : Except Sig Unit)
+    (hnm : ∀ nm, nodeParamName p = some nm → PlainName nm ∧ W (bytesToString nm))
+    (h : I s) (hr : runM (bindParamNode ev n p i args) s = (r, s')) : I s' := by
+  unfold bindParamNode at hr
+  by_cases hid : (p.name == "identifier") = true
+  · simp only [hid, if_true] at hr
+    rw [runM_bind, runM_tokOf] at hr
+    cases htk : p.tok with
+    | none => simp only [htk] at hr; injection hr with _ h2; rw [← h2]; exact h
+    | some tk =>
+      simp only [htk] at hr
+      have hn := hnm tk.val (by simp [nodeParamName, hid, htk])
+      rw [setValue_parentless n tk.val tk.val _ s hn.1 (hpar _ h)] at hr
+      injection hr with _ h2; rw [← h2]
+      exact hwv _ _ _ h hn.2
+  · simp only [hid, Bool.false_eq_true, if_false] at hr
+    by_cases hpre : (p.name == "preset") = true
+    · simp only [hpre, if_true] at hr
+      rw [runM_bind, runM_child] at hr
+      cases hc : p.children[0]? with
+      | none => simp only [hc] at hr; injection hr with _ h2; rw [← h2]; exact h
+      | some o =>
+        cases o with
+        | none => simp only [hc] at hr; injection hr with _ h2; rw [← h2]; exact h
+        | some c =>
+          simp only [hc] at hr
+          rw [runM_bind, runM_tokOf] at hr
+          cases htk : c.tok with
+          | none => simp only [htk] at hr; injection hr with _ h2; rw [← h2]; exact h
+          | some tk =>
+            simp only [htk] at hr
+            have hn := hnm tk.val (by simp [nodeParamName, hid, hpre, hc, htk])
+            rw [runM_bind] at hr
+            by_cases hi : i < args.length
+            · simp only [hi, if_true, runM_pure] at hr
+              rw [setValue_parentless n tk.val tk.val _ s hn.1 (hpar _ h)] at hr
+              injection hr with _ h2; rw [← h2]
+              exact hwv _ _ _ h hn.2
+            · simp only [hi, if_false] at hr
+              rw [runM_bind, runM_child] at hr
+              cases hc1 : p.children[1]? with
+              | none => simp only [hc1] at hr; injection hr with _ h2; rw [← h2]; exact h
+              | some o1 =>
+                cases o1 with
+                | none => simp only [hc1] at hr; injection hr with _ h2; rw [← h2]; exact h
+                | some d =>
+                  simp only [hc1] at hr
+                  cases hv : runM (ev d) s with
+                  | mk rv s1 =>
+                    have hi1 := hdef d s rv s1 h hv
+                    rw [hv] at hr
+                    cases rv with
+                    | error e => simp only at hr; injection hr with _ h2; rw [← h2]; exact hi1
+                    | ok v =>
+                      simp only at hr
+                      rw [setValue_parentless n tk.val tk.val _ s1 hn.1 (hpar _ hi1)] at hr
+                      injection hr with _ h2; rw [← h2]
+                      exact hwv _ _ _ hi1 hn.2
+    · simp only [hpre, Bool.false_eq_true, if_false, runM_pure] at hr
+      injection hr with _ h2; rw [← h2]; exact h
+
+
+theorem bindParamNodes_gen (ev : Node → M Val) (n : Nat) (I : St → Prop) (W : String → Prop)
+    (hpar : ∀ s, I s → (s.scope n).parent = none)
+    (hwv : ∀ s v x, I s → W v → I (s.withVar n v x))
+    (hdef : ∀ d s r s1, I s → runM (ev d) s = (r, s1) → I s1)
+    (args : List Val) : ∀ (ps : List (Option Node)) (i : Nat) (s s' : St) (r : Except Sig Unit),
+    (∀ p nm, some p ∈ ps → nodeParamName p = some nm → PlainName nm ∧ W (bytesToString nm)) → I s →
+    runM (bindParamNodes ev n ps i args) s = (r, s') → I s' := by
+  intro ps
+  induction ps with
+  | nil => intro i s s' r _ h hr; simp only [bindParamNodes, runM_pure] at hr; injection hr with _ h2; rw [← h2]; exact h
+  | cons o rest ih =>
+    intro i s s' r hok h hr
+    cases o with
+    | none => simp only [bindParamNodes, runM_throw] at hr; injection hr with _ h2; rw [← h2]; exact h
+    | some p =>
+      simp only [bindParamNodes] at hr
+      rw [runM_bind] at hr
+      cases hb : runM (bindParamNode ev n p i args) s with
+      | mk rb s1 =>
+        have hi1 := bindParamNode_gen ev n I W hpar hwv hdef p i args s s1 rb (fun nm hnm => hok p nm (by simp) hnm) h hb
+        rw [hb] at hr
+        cases rb with
+        | error e => simp only at hr; injection hr with _ h2; rw [← h2]; exact hi1
+        | ok u =>
+          simp only at hr
+          exact ih (i + 1) s1 s' r (fun q nm hq hnm => hok q nm (by simp [hq]) hnm) hi1 hr
+
+theorem bindContext_gen (n : Nat) (I : St → Prop) (W : String → Prop)
+    (hpar : ∀ s, I s → (s.scope n).parent = none) (hwv : ∀ s v x, I s → W v → I (s.withVar n v x))
+    (name : List Nat) (o : Option Val) (s : St) (hp : PlainName name) (hW : W (bytesToString name)) (h : I s) :
+    ∃ s1, runM (bindContext n name o) s = (.ok (), s1) ∧ I s1 := by
+  cases o with
+  | none => exact ⟨s, rfl, h⟩
+  | some v => exact ⟨_, setValue_parentless n name name v s hp (hpar _ h), hwv _ _ _ h hW⟩
+
 theorem bindParamNode_inv (st : St) (ev : Node → M Val) (n t : Nat) (A : String → Prop) (htn : t ≠ n)
     (hev : DefaultKeeps ev n t) (p : Node) (i : Nat) (args : List Val) (s s' : St) (r : Except Sig Unit)
     (hnm : ∀ nm, nodeParamName p = some nm → PlainName nm ∧ A (bytesToString nm))
@@ -246,5 +349,147 @@ theorem buildFrame_spec (ev : Node → M Val) (fr : FuncRec) (params : List (Opt
       intro w hw
       apply hi3.2.2.2 w
       simpa [St.defines, hsame] using hw
+
+
+/-! ### the value of `this` / `super` in the finished frame -/
+
+/-- the frame `n` under construction defines `N` with value `val` -/
+def NameInv (n : Nat) (N : String) (val : Val) (s : St) : Prop :=
+  n < s.scopes.size ∧ (s.scope n).parent = none ∧ s.defines n N = true ∧ s.valueIn n N = val
+
+def FrameBase (n : Nat) (s : St) : Prop := n < s.scopes.size ∧ (s.scope n).parent = none
+
+theorem frameBase_withVar (n : Nat) (s : St) (v : String) (x : Val) (h : FrameBase n s) : FrameBase n (s.withVar n v x) :=
+  ⟨by rw [(withVar_heap s n v x).2.2]; exact h.1, by rw [withVar_scope_same s n v x h.1]; exact h.2⟩
+
+theorem nameInv_withVar (n : Nat) (N : String) (val : Val) (s : St) (v : String) (x : Val) (hv : v ≠ N)
+    (h : NameInv n N val s) : NameInv n N val (s.withVar n v x) := by
+  obtain ⟨h1, h2, h3, h4⟩ := h
+  have hvn : (v == N) = false := by simpa using hv
+  have ho := updVars_find_other (s.scope n).vars v N x hvn
+  refine ⟨by rw [(withVar_heap s n v x).2.2]; exact h1, by rw [withVar_scope_same s n v x h1]; exact h2, ?_, ?_⟩
+  · simp only [St.defines, withVar_scope_same s n v x h1] at h3 ⊢
+    have : (((updVars (s.scope n).vars v x).find? (·.1 == N)).map (·.2)).isSome = true := by rw [ho]; simpa using h3
+    simpa using this
+  · simp only [St.valueIn, withVar_scope_same s n v x h1] at h4 ⊢
+    rw [ho]; exact h4
+
+theorem nameInv_scope_eq (n : Nat) (N : String) (val : Val) (s s1 : St) (hsz : s.scopes.size ≤ s1.scopes.size)
+    (hsc : s1.scope n = s.scope n) (h : NameInv n N val s) : NameInv n N val s1 :=
+  ⟨Nat.lt_of_lt_of_le h.1 hsz, by rw [hsc]; exact h.2.1, by simpa [St.defines, hsc] using h.2.2.1,
+   by simpa [St.valueIn, hsc] using h.2.2.2⟩
+
+/-- parameter names are plain identifiers different from `N` -/
+def ParamsAvoid (N : String) (ps : List (Option Node)) : Prop :=
+  ∀ p nm, some p ∈ ps → nodeParamName p = some nm → PlainName nm ∧ bytesToString nm ≠ N
+
+/-- default evaluation leaves the unlinked frame alone and does not shrink the scope table -/
+def DefaultKeepsFrame (ev : Node → M Val) (n : Nat) : Prop :=
+  ∀ d s r s1, runM (ev d) s = (r, s1) → s.scopes.size ≤ s1.scopes.size ∧ s1.scope n = s.scope n
+
+theorem this_ne_super : bytesToString superName ≠ bytesToString thisName := by decide
+
+/-- the tail of `buildFrame` after `this` / `super`: parameters, then the link -/
+theorem frame_finish (ev : Node → M Val) (n ds : Nat) (N : String) (val : Val) (params : List (Option Node)) (args : List Val)
+    (s2 s3 st' : St) (hav : ParamsAvoid N params) (hev : DefaultKeepsFrame ev n) (hi2 : NameInv n N val s2)
+    (hb : runM (bindParamNodes ev n params 0 args) s2 = (.ok (), s3))
+    (hfin : st' = { s3 with scopes := s3.scopes.setIfInBounds n { s3.scope n with parent := some ds } }) :
+    st'.defines n N = true ∧ st'.valueIn n N = val ∧ st'.nearest n N = some n := by
+  have hi3 : NameInv n N val s3 :=
+    bindParamNodes_gen ev n (NameInv n N val) (fun v => v ≠ N) (fun s h => h.2.1)
+      (fun s v x h hv => nameInv_withVar n N val s v x hv h)
+      (fun d s r s1 h hr => nameInv_scope_eq n N val s s1 (hev d s r s1 hr).1 (hev d s r s1 hr).2 h)
+      args params 0 s2 s3 (.ok ()) hav hi2 hb
+  have hsame : st'.scope n = { s3.scope n with parent := some ds } := by rw [hfin]; simp [St.scope, hi3.1]
+  have hd : st'.defines n N = true := by simpa [St.defines, hsame] using hi3.2.2.1
+  exact ⟨hd, by simpa [St.valueIn, hsame] using hi3.2.2.2, nearest_self st' n N hd⟩
+
+/-- a bound function's body finds `this` in its own frame, with the bound value — unless a parameter is itself
+    called `this` (then the parameter's value replaces it: parameters are written after `this`) -/
+theorem buildFrame_this (ev : Node → M Val) (fr : FuncRec) (params : List (Option Node)) (args : List Val) (st st' : St)
+    (fvs : Nat) (tv : Val) (hthis : fr.this = some tv) (hav : ParamsAvoid (bytesToString thisName) params)
+    (hev : DefaultKeepsFrame ev st.scopes.size)
+    (h : runM (buildFrame ev fr params args) st = (.ok fvs, st')) :
+    fvs = st.scopes.size ∧ st'.defines fvs (bytesToString thisName) = true ∧
+    st'.valueIn fvs (bytesToString thisName) = tv ∧ st'.nearest fvs (bytesToString thisName) = some fvs := by
+  unfold buildFrame at h
+  rw [runM_bind, newScope_run] at h
+  simp only at h
+  rw [runM_bind, hthis] at h
+  have hb0 : FrameBase st.scopes.size
+      { st with scopes := st.scopes.push { name := s!"func: {fr.name}", parent := none, children := [], vars := [] } } :=
+    ⟨by simp, by simp [St.scope]⟩
+  have e1 := setValue_parentless st.scopes.size thisName thisName tv _ plain_this hb0.2
+  rw [show bindContext st.scopes.size thisName (some tv) = setValue st.scopes.size thisName tv from rfl, e1] at h
+  simp only at h
+  have hi1 : NameInv st.scopes.size (bytesToString thisName) tv
+      (({ st with scopes := st.scopes.push { name := s!"func: {fr.name}", parent := none, children := [], vars := [] } } : St).withVar
+        st.scopes.size (bytesToString thisName) tv) :=
+    ⟨(frameBase_withVar _ _ _ _ hb0).1, (frameBase_withVar _ _ _ _ hb0).2, withVar_defines _ _ _ _ hb0.1, withVar_valueIn _ _ _ _ hb0.1⟩
+  rw [runM_bind] at h
+  obtain ⟨s2, hs2, hi2⟩ := bindContext_gen st.scopes.size (NameInv st.scopes.size (bytesToString thisName) tv)
+    (fun v => v ≠ bytesToString thisName) (fun s h => h.2.1) (fun s v x h hv => nameInv_withVar _ _ _ s v x hv h)
+    superName fr.super _ plain_super this_ne_super hi1
+  rw [hs2] at h
+  simp only at h
+  rw [runM_bind] at h
+  cases hb : runM (bindParamNodes ev st.scopes.size params 0 args) s2 with
+  | mk rb s3 =>
+    rw [hb] at h
+    cases rb with
+    | error e => simp at h
+    | ok u =>
+      simp only at h
+      rw [runM_bind, getScope_run] at h
+      simp only at h
+      rw [runM_bind, setScope_run] at h
+      simp only [runM_pure] at h
+      injection h with h1' h2'
+      injection h1' with h1'
+      subst h1'
+      have := frame_finish ev st.scopes.size fr.declScope _ tv params args s2 s3 st' hav hev hi2 hb h2'.symm
+      exact ⟨rfl, this⟩
+
+/-- … and `super` likewise (only a bound `init` has one) -/
+theorem buildFrame_super (ev : Node → M Val) (fr : FuncRec) (params : List (Option Node)) (args : List Val) (st st' : St)
+    (fvs : Nat) (sl : Val) (hsuper : fr.super = some sl) (hav : ParamsAvoid (bytesToString superName) params)
+    (hev : DefaultKeepsFrame ev st.scopes.size)
+    (h : runM (buildFrame ev fr params args) st = (.ok fvs, st')) :
+    fvs = st.scopes.size ∧ st'.defines fvs (bytesToString superName) = true ∧
+    st'.valueIn fvs (bytesToString superName) = sl ∧ st'.nearest fvs (bytesToString superName) = some fvs := by
+  unfold buildFrame at h
+  rw [runM_bind, newScope_run] at h
+  simp only at h
+  rw [runM_bind] at h
+  have hb0 : FrameBase st.scopes.size
+      { st with scopes := st.scopes.push { name := s!"func: {fr.name}", parent := none, children := [], vars := [] } } :=
+    ⟨by simp, by simp [St.scope]⟩
+  obtain ⟨s1, hs1, hb1⟩ := bindContext_gen st.scopes.size (FrameBase st.scopes.size) (fun _ => True) (fun s h => h.2)
+    (fun s v x h _ => frameBase_withVar _ s v x h) thisName fr.this _ plain_this trivial hb0
+  rw [hs1] at h
+  simp only at h
+  rw [runM_bind, hsuper] at h
+  have e2 := setValue_parentless st.scopes.size superName superName sl s1 plain_super hb1.2
+  rw [show bindContext st.scopes.size superName (some sl) = setValue st.scopes.size superName sl from rfl, e2] at h
+  simp only at h
+  have hi2 : NameInv st.scopes.size (bytesToString superName) sl (s1.withVar st.scopes.size (bytesToString superName) sl) :=
+    ⟨(frameBase_withVar _ _ _ _ hb1).1, (frameBase_withVar _ _ _ _ hb1).2, withVar_defines _ _ _ _ hb1.1, withVar_valueIn _ _ _ _ hb1.1⟩
+  rw [runM_bind] at h
+  cases hb : runM (bindParamNodes ev st.scopes.size params 0 args) (s1.withVar st.scopes.size (bytesToString superName) sl) with
+  | mk rb s3 =>
+    rw [hb] at h
+    cases rb with
+    | error e => simp at h
+    | ok u =>
+      simp only at h
+      rw [runM_bind, getScope_run] at h
+      simp only at h
+      rw [runM_bind, setScope_run] at h
+      simp only [runM_pure] at h
+      injection h with h1' h2'
+      injection h1' with h1'
+      subst h1'
+      have := frame_finish ev st.scopes.size fr.declScope _ sl params args _ s3 st' hav hev hi2 hb h2'.symm
+      exact ⟨rfl, this⟩
 
 end Ecal.Ev
